@@ -205,7 +205,7 @@ func planC10life(c *Ctx, run int64) *Plan {
 		case v < wCalc:
 			op = Op{K: Pick(r, []string{"calc", "calc", "calc", "insert"})}
 		case v < wCalc+wEdit:
-			op = Op{K: "edit", S: Pick(r, []string{"qty", "note", "rmcode", "setcode", "invalid", "fixinvalid", "price", "custname", "live-qty", "live-note"}), I: int64(r.IntN(4))}
+			op = Op{K: "edit", S: Pick(r, []string{"qty", "note", "rmcode", "setcode", "invalid", "fixinvalid", "price", "custname", "live-qty", "live-note", "nocalc", "fixnocalc"}), I: int64(r.IntN(4))}
 			switch op.S {
 			case "qty":
 				op.S2 = Pick(r, []string{"2", "3", "0.5"})
@@ -330,10 +330,18 @@ func execLife(x *X, base string, ops []Op, or lifeOracles) {
 			changed = true
 		case "calc":
 			f := factsOf(s.env)
+			hdrWhole := Marshal(s.env.Head)
 			var err error
 			if p := safely(func() { err = s.env.Calculate() }); p != "" {
 				note = "panic"
 				break
+			}
+			if err != nil {
+				// a calculation that fails has not produced a document to take a digest of: the
+				// header, digest included, stays as it was
+				if after := Marshal(s.env.Head); !bytes.Equal(hdrWhole, after) {
+					bad("header-changed-by:failed-calc:"+GDiff(hdrWhole, after), "a failed Calculate changed the header; %s", DiffDetail(hdrWhole, after))
+				}
 			}
 			if (err == nil) != f.calcOK {
 				bad("calc:outcome", "calculate returned %v but a fresh copy of the same document calculates ok=%v", err, f.calcOK)
